@@ -243,7 +243,7 @@ def unpack(fmt: str, data: SymBytes):
             out.append(SymBytes(chunk))
             continue
         if code.islower():
-            raise Unsupported("signed struct code in a header format")
+            raise LayoutViolation(f"struct code '{code}' in {fmt!r} reads a header field as a signed number: values with the top bit set come back negative (the fields are unsigned)")
         bits = []
         for item in reversed(chunk):
             bits.extend(item.bits + [0] * (8 - item.width()))
